@@ -61,6 +61,18 @@ FIXED.append(
                   'Sheet1!A4': ['call', 'SUM', [['range', 'ZY2:AAB2']]],
                   'Sheet1!A5': ['op', '+', ['ref', 'A3'], ['ref', 'A4']]},
      'sheets': ['Sheet1']})
+FIXED.append(
+    # sheets whose names differ only in letter case, the same coordinates
+    # on both inside one formula (qualified and unqualified spellings)
+    {'inputs': {'data!A1': 3, 'data!A2': 5, 'DATA!A1': 40, 'DATA!A2': 60},
+     'formulas': {'Report!B1': ['op', '+', ['ref', 'data!A1'],
+                                ['ref', 'DATA!A1']],
+                  'Report!B2': ['op', '+', ['call', 'SUM', [
+                      ['range', 'data!A1:A2']]], ['call', 'SUM', [
+                          ['range', 'DATA!A1:A2']]]],
+                  'data!B1': ['op', '*', ['ref', 'A2'], ['ref', 'DATA!A2']],
+                  'Report!C1': ['op', '-', ['ref', 'B1'], ['ref', 'data!B1']]},
+     'sheets': ['data', 'DATA', 'Report']})
 for _m in FIXED:
     _m['order'] = list(_m['formulas'])
 
@@ -86,6 +98,8 @@ def _build(d):
     use_names = d.pick(3) == 0
     names = []
     if use_names:
+        model = GM.workbook_safe(model)
+        cells = model['order'] + sorted(model['inputs'])
         cand = sorted(model['inputs']) + model['order']
         for j in range(d.int(1, 3)):
             a = d.choice(cand)
